@@ -172,7 +172,83 @@ fn judge(c: &Case, mods: &[RModule]) -> Option<(&'static str, String)> {
     None
 }
 
+/// second module shape, compiled with `generate_from_impls`: a CHOICE named by the case's
+/// typereference with a hoisted (inline SEQUENCE) alternative named by its identifier, and
+/// the same CHOICE as the anonymous element of a SEQUENCE OF. The `impl From<..> for ..` items
+/// name hoisted types a second time; both spellings must be the declared ones.
+fn from_impls_text(c: &Case) -> String {
+    format!(
+        "{u} DEFINITIONS AUTOMATIC TAGS ::= BEGIN\n\
+         {u} ::= CHOICE {{ {l} SEQUENCE {{ zz-x INTEGER }}, zz-other BOOLEAN }}\n\
+         Zz-{u} ::= SEQUENCE OF CHOICE {{ {l} SEQUENCE {{ zz-y INTEGER }}, zz-o2 BOOLEAN }}\n\
+         END\n",
+        u = c.upper,
+        l = c.lower
+    )
+}
+
+fn eval_from_impls(c: &Case) -> Result<Option<(&'static str, String)>, String> {
+    let text = from_impls_text(c);
+    let cfg = Cfg { generate_from_impls: true, ..Cfg::default() };
+    match comp::compile_rasn1(&text, &cfg) {
+        Outcome::Ok(o) => {
+            if !o.warnings.is_empty() {
+                return Err(format!("warnings: {}", o.warnings[0]));
+            }
+            if std::env::var("C16_DUMP").is_ok() {
+                println!("{}", o.generated);
+            }
+            let mods = match proj::project(&o.generated) {
+                Ok(m) => m,
+                Err(e) => return Ok(Some(("legal", format!("generated text (generate_from_impls) does not parse as Rust: {e}")))),
+            };
+            let Some(m) = mods.first() else { return Ok(Some(("structure", "no module generated".into()))) };
+            let declared: std::collections::BTreeSet<&str> = m.items.iter().filter_map(|i| match i { RItem::Struct(_) | RItem::Enum(_) => i.name(), _ => None }).collect();
+            let mut n_from = 0;
+            for it in &m.items {
+                let RItem::Impl(im) = it else { continue };
+                let Some(tr) = &im.trait_ else { continue };
+                let Some(arg) = tr.strip_prefix("From <").or_else(|| tr.strip_prefix("From<")) else { continue };
+                let arg = arg.trim().trim_end_matches('>').trim();
+                n_from += 1;
+                if !legal(im.target.trim()) || !declared.contains(im.target.trim()) {
+                    return Ok(Some(("from-impl", format!("`impl {tr} for {}`: the implementing type is not a declared item", im.target))));
+                }
+                // the argument is a hoisted type (an identifier) or a builtin
+                let is_ident = arg.chars().all(|ch| ch.is_alphanumeric() || ch == '_');
+                if is_ident && arg.starts_with(|ch: char| ch.is_uppercase()) && !declared.contains(arg) && !["Integer", "Null", "Any"].contains(&arg) {
+                    return Ok(Some(("from-impl", format!("`impl {tr} for {}`: `{arg}` is not a declared item (the hoisted type is declared under another name)", im.target))));
+                }
+            }
+            if n_from == 0 {
+                return Ok(Some(("structure", "generate_from_impls produced no From impl".into())));
+            }
+            Ok(None)
+        }
+        Outcome::Err(e) => Err(format!("Err: {e}")),
+        Outcome::Panic(p) if p.contains("Ident") => Ok(Some(("legal", format!("the generator built an illegal identifier (generate_from_impls): {p}")))),
+        Outcome::Panic(p) => Err(format!("panic: {p}")),
+    }
+}
+
 fn eval(c: &Case) -> Result<Option<(&'static str, String)>, String> {
+    match eval_default(c) {
+        Ok(None) => {}
+        other => return other,
+    }
+    // the second shape on every 4th name (by hash) and on every name with a hyphen or keyword
+    let h = crate::ev::hash_str(&c.lower);
+    if h % 4 == 0 || c.lower.contains('-') || KEYWORDS.contains(&c.lower.as_str()) {
+        match eval_from_impls(c) {
+            Err(_) => Ok(None),
+            other => other,
+        }
+    } else {
+        Ok(None)
+    }
+}
+
+fn eval_default(c: &Case) -> Result<Option<(&'static str, String)>, String> {
     let text = module_text(c);
     match comp::compile_rasn1(&text, &Cfg::default()) {
         Outcome::Ok(o) => {
